@@ -288,6 +288,18 @@ def check(ctx):
         w = unparse(find("M_w = _convert_to_list(columns)", asu)[0][1]["M_w"])
         ok = all(unparse(t.comparators[0]) == w for t in nar[0].generators[0].ifs if isinstance(t, ast.Compare))
     ctx.ob("TAB.astype.projection-membership", asu, "the dtype dict is narrowed with `key in <list of projected columns>`", ok, "" if ok else "with a single projected column `key in columns` is a substring test: 'a' in 'ab' keeps the wrong key and Series.astype raises")
+    # ---------------- isin: value lists that NumPy would coerce to one type are kept as object arrays
+    isf = ctx.model.module("dask/dataframe/dask_expr/_collection.py").func("FrameBase.isin")
+    ol = find("object_like = M_v", isf)
+    vals = {const(e) for e in ol[0][1]["M_v"].elts} if len(ol) == 1 and isinstance(ol[0][1]["M_v"], ast.Set) else set()
+    need = {"mixed-integer", "mixed", "decimal", "categorical", "time", "period", "unknown-array"}
+    ok = need <= vals
+    ctx.ob("TAB.isin.object-like", isf, f"isin keeps values of inferred type {sorted(need)} as dtype=object", ok, "" if ok else f"missing {sorted(need - vals)}: np.asarray turns [1, 'a', 7] into strings, so isin gives false negatives on int columns and false positives on string columns")
+    # ---------------- str.split / str.rsplit(expand=True): the method that was asked for is the one that runs
+    spf = ctx.model.module("dask/dataframe/dask_expr/_str_accessor.py").func("StringAccessor._split")
+    sm = [c for c in calls(spf, "SplitMap")]
+    ok = len(sm) == 1 and len(sm[0].args) >= 3 and eqv(sm[0].args[2], "method") and "method" in [a.arg for a in spf.args.args]
+    ctx.ob("DELEG.str-split.method", spf, "_split(method, ...) builds SplitMap(series, accessor, method, ...)", ok, "" if ok else "rsplit(expand=True) runs split: columns differ from pandas whenever a string has more separators than n")
 
 
 VARIANTS = [
